@@ -321,12 +321,12 @@ class ArithmeticPulseTemplate(PulseTemplate):
             scalar_value = _evaluate(self._scalar)
             return {channel_mapping[channel]: scalar_value
                     for channel in self._pulse_template.defined_channels
-                    if channel_mapping[channel]}
+                    if channel_mapping[channel] is not None}
 
         else:
             return {channel_mapping[channel]: _evaluate(value)
                     for channel, value in self._scalar.items()
-                    if channel_mapping[channel]}
+                    if channel_mapping[channel] is not None}
 
     def _as_expression(self):
         atomic = cast(AtomicPulseTemplate, self._pulse_template)
@@ -360,7 +360,7 @@ class ArithmeticPulseTemplate(PulseTemplate):
                 transformation = transformation.chain(
                     ScalingTransformation({channel_mapping[ch]: -1
                                            for ch in self.defined_channels
-                                           if channel_mapping[ch]}))
+                                           if channel_mapping[ch] is not None}))
 
         else:
             if self._arithmetic_operator == '-':
